@@ -262,6 +262,67 @@ class _Dumps:
         return self.d[flt]
 
 
+def _strip_comments(txt):
+    txt = re.sub(r'/\*.*?\*/', ' ', txt, flags=re.S)
+    return re.sub(r'//[^\n]*', ' ', txt)
+
+
+def _angle_args(txt, pos):
+    """txt[pos] == '<': the text between it and its matching '>'"""
+    depth = 0
+    for i in range(pos, len(txt)):
+        if txt[i] == '<':
+            depth += 1
+        elif txt[i] == '>':
+            depth -= 1
+            if depth == 0:
+                return txt[pos + 1:i]
+    raise E('unbalanced template argument list')
+
+
+def invocable_probes(repo):
+    """The class of a callback is decided by `is_invocable_v<Func, X>` probes (core.hpp) that go through detail::IsInvocable
+    (util/detail/type_traits_impl.hpp).  Extracted at text level, fail closed: every definition (primary template and
+    specializations) of IsInvocable / Invoke with what it evaluates to, the two aliases of util/type_traits.hpp, and the set of
+    probes core.hpp makes.  A probe names a TYPE (no reference): std::is_invocable then asks for an rvalue of it, which is what
+    the core passes for unique futures (MoveOrConst<true> / Result{StopTag{}} / std::move(r).Value()).  A new specialization
+    (seeded r3b-4 probes Result<V,E> as an LVALUE) changes `isInvocableDefs`."""
+    def read(rel):
+        try:
+            return _strip_comments(open(os.path.join(repo, rel)).read())
+        except OSError as e:
+            raise E('cannot read %s: %s' % (rel, e))
+    tti = read('include/yaclib/util/detail/type_traits_impl.hpp')
+    defs = []
+    pat = re.compile(r'template\s*<([^{};]*?)>\s*struct\s+(IsInvocable|Invoke)\b\s*(<[^{};]*>)?\s*(?:final\s*)?\{([^{}]*)\}\s*;', re.S)
+    for m in pat.finditer(tti):
+        defs.append((m.group(2), norm(m.group(3) or '(primary)'), norm(m.group(4))))
+    for name in ('IsInvocable', 'Invoke'):
+        n_def = sum(1 for d in defs if d[0] == name)
+        n_txt = len(re.findall(r'\bstruct\s+%s\b' % name, tti))
+        if n_def != n_txt or n_def == 0:
+            raise E('type_traits_impl.hpp: %d `struct %s` but %d parsed definitions (new shape)' % (n_txt, name, n_def))
+    if len(re.findall(r'\bIsInvocable\b', tti)) != sum(1 for d in defs if d[0] == 'IsInvocable'):
+        raise E('type_traits_impl.hpp: IsInvocable is mentioned outside its own definitions')
+    tt = read('include/yaclib/util/type_traits.hpp')
+    a1 = re.findall(r'inline\s+constexpr\s+bool\s+is_invocable_v\s*=\s*([^;]*);', tt)
+    a2 = re.findall(r'using\s+invoke_t\s*=\s*([^;]*);', tt)
+    if len(a1) != 1 or len(a2) != 1:
+        raise E('type_traits.hpp: is_invocable_v / invoke_t are no longer defined exactly once')
+    core = read('include/yaclib/algo/detail/core.hpp')
+    probes = set()
+    for m in re.finditer(r'\bis_invocable_v\s*<', core):
+        probes.add(norm(_angle_args(core, m.end() - 1)))
+    if 'std::is_invocable' in core or 'IsInvocable' in core:
+        raise E('core.hpp probes invocability without is_invocable_v')
+    q = lambda x: '"' + x.replace('\\', '\\\\').replace('"', '\\"') + '"'
+    return ['/-! callback classification probes (util/detail/type_traits_impl.hpp, util/type_traits.hpp, core.hpp) -/',
+            'def isInvocableDefs : List (String × String × String) := [%s]' % ', '.join('(%s, %s, %s)' % (q(a), q(b), q(c)) for a, b, c in defs),
+            'def isInvocableAlias : String := %s' % q(norm(a1[0])),
+            'def invokeAlias : String := %s' % q(norm(a2[0])),
+            'def coreProbes : List String := [%s]' % ', '.join(q(x) for x in sorted(probes)), '']
+
+
 def generate(repo, cfg_include, workdir):
     tu = os.path.join(workdir, 'tu_dispatch.cpp')
     with open(tu, 'w') as f:
@@ -699,6 +760,7 @@ def generate(repo, cfg_include, workdir):
     texts = {coret_of(f, 'From') for f in fs}
     if texts != {'Unique?CoreType::FromUnique:CoreType::FromShared'}:
         raise E('detail::SetCallback: `From` changed: %s' % sorted(texts))
-    L += ['def setCallbackFromUnique : Nat := ctFromUnique', 'def setCallbackFromShared : Nat := ctFromShared', '',
-          'end Yaclib.Extracted.Dispatch', '']
+    L += ['def setCallbackFromUnique : Nat := ctFromUnique', 'def setCallbackFromShared : Nat := ctFromShared', '']
+    L += invocable_probes(repo)
+    L += ['end Yaclib.Extracted.Dispatch', '']
     return '\n'.join(L) + '\n' + '\n'.join(L2)
